@@ -121,6 +121,9 @@ type Interp struct {
 	sample    string
 	fnStack   []*ssa.Function
 	inverse    map[*SymStr]invRec // results of encoders whose decoder is their inverse
+	raceDesc    string
+	permuteMode int // 0 canonical, 1 one arbitrary-order range per execution, 2 every range
+	permuteUsed bool
 	inYield    bool
 	initPhase  bool
 	blobs      map[*SymStr]*blobRec
